@@ -54,6 +54,8 @@ def xtarget(ctx, classes):
 def c01(ctx):
     ctx.mon("c01/asm-debug", "asm", "debug", ["c01"])
     ctx.mon("c01/asm-release", "asm", "release", ["c01"])
+    # size classes beyond 2^31 (thorough: 2^32) bytes, one input at a time
+    ctx.mon("c01/huge", "asm", "release", ["huge", "--what", "oneshot"], timeout=5400)
     # the other two build flavours of the crate (different kernels behind the same dispatch, and in
     # `pure` a different compile-time MAX_SIMD_DEGREE), with their natural platform detection
     ctx.mon("c01/pure-debug", "pure", "debug", ["c01", "--scale", "0.3"])
@@ -70,6 +72,8 @@ def c01(ctx):
 def c02(ctx):
     ctx.mon("c02/asm-debug", "asm", "debug", ["c02"])
     ctx.mon("c02/asm-release", "asm", "release", ["c02"])
+    # size classes beyond 2^31 (thorough: 2^32) bytes, one input at a time
+    ctx.mon("c02/huge", "asm", "release", ["huge", "--what", "hasher"], timeout=5400)
     # the other two build flavours of the crate (different kernels behind the same dispatch, and in
     # `pure` a different compile-time MAX_SIMD_DEGREE), with their natural platform detection
     ctx.mon("c02/pure-debug", "pure", "debug", ["c02", "--scale", "0.3"])
@@ -103,6 +107,10 @@ def c08(ctx):
     t = ctx.thorough
     ctx.mon("c08/asm-debug", "asm", "debug", ["c08", "--scale", "3" if t else "1"], timeout=5400)
     ctx.mon("c08/asm-release", "asm", "release", ["c08", "--scale", "3" if t else "0.5"], timeout=5400)
+    ctx.mon("c08/huge", "asm", "release", ["huge", "--what", "rayon"], timeout=5400)
+    # update_mmap_rayon is a multithreaded entry point too: the file battery of C11 (length lattice
+    # around the mmap threshold, special files, block device, reads interrupted by real signals)
+    ctx.mon("c08/file-entry-points", "asm", "release", ["c11", "--files-only", "1"], adopt=lambda sig: "update_mmap_rayon" in sig)
     ctx.mon("c08/intr-debug", "intr", "debug", ["c08", "--scale", "1" if t else "0.3"], timeout=5400)
     import cbuild
     tbb_native = cbuild.build("int", "native", extra_defs=["-DBLAKE3_USE_TBB"], extra_srcs=[_seam()], name="cdrv_int_tbb")
@@ -269,6 +277,8 @@ def c07(ctx):
 def c11(ctx):
     ctx.mon("c11/asm-debug", "asm", "debug", ["c11"])
     ctx.mon("c11/asm-release", "asm", "release", ["c11"])
+    # sparse all-zero files longer than 2^31 (thorough: 2^32) bytes through the three file entry points
+    ctx.mon("c11/huge-files", "asm", "release", ["huge", "--what", "file"], timeout=5400)
     # evidence that the mmap path / the read fallback were really taken: syscall trace of the file part
     import tempfile, re
     exe = core.cargo_build("asm", "release")
